@@ -1,3 +1,6 @@
 pub mod util;
 pub mod erralg;
 pub mod accum;
+pub mod sym;
+pub mod input;
+pub mod recv;
